@@ -416,6 +416,16 @@ func exRel(a kv) string {
 		_ = os.Setenv("PATH", filepath.Join(dir, "pathdir")+":"+oldPath)
 		defer func() { _ = os.Setenv("PATH", oldPath) }()
 	}
+	if a.str("variant", "") == "relpath" {
+		// a bare name, a root-owned file of that name in the working directory, and a RELATIVE entry in $PATH (`pathdir`)
+		// that holds a namesake of another owner: os/exec finds `pathdir/top.sh` and refuses to run it (exec.ErrDot); the
+		// file that was checked is the only one that may ever run (seed C18l: the ErrDot refusal was cleared)
+		mk("top.sh", "good", 0, 0o755)
+		mk("pathdir/top.sh", "bad", 1000, 0o777)
+		oldPath := os.Getenv("PATH")
+		_ = os.Setenv("PATH", "pathdir:"+oldPath)
+		defer func() { _ = os.Setenv("PATH", oldPath) }()
+	}
 	path := a.str("path", "bin/probe.sh")
 	if a.str("variant", "") == "blank" {
 		// a root-owned script WITHOUT an interpreter line (the kernel refuses it: exec format error) whose path has a blank
